@@ -11,7 +11,7 @@ RULE = ("hist cases: one parser instance (random plugin subset/order, nesting li
         "same document twice); every document is also parsed by a fresh instance in a separate command; oracle: the k-th result of "
         "the history equals the fresh result (tree, HTML, XHTML). Non-trivial = history of >= 2 documents where one defines a "
         "reference or uses backticks; distinct = distinct histories.")
-LEAKY = ["[r]: /leak\n", "[foo]: /leak2 'T'\n\n[foo]", "[r]", "[foo][]", "![r]", "``` `` ` x", "`a ``b ```c", "*a **b", "_x __y", "[r]: /other", "[R]", "[ſ]: /s\n", "[SS]",
+LEAKY = ["~~x~~ H~2~O ~y~ ~~~z~~~", "H~2~O", "~~s~~", "[r]: /leak\n", "[foo]: /leak2 'T'\n\n[foo]", "[r]", "[foo][]", "![r]", "``` `` ` x", "`a ``b ```c", "*a **b", "_x __y", "[r]: /other", "[R]", "[ſ]: /s\n", "[SS]",
          "xx y xx", "a `b` c `` d", "> [r]: /q\n", "- [r]: /l\n\n[r]", "[r]\n\n[r]: /late",
          # destinations that differ only in the spelling of the scheme / host (any memo of normalised links must not leak)
          "[a](HTTP://example.com/X) <HTTP://EXAMPLE.com/y>", "[a](http://example.com/X) <http://EXAMPLE.com/y>", "[r]: HTTPS://q.r/Z\n\n[r]", "[r]: https://q.r/Z\n\n[r]",
@@ -48,7 +48,7 @@ def cases(rng, tier, Case):
             res.append(Case("hist 100 TR %s" % script, "history", {"cfg": cfg, "nest": 100, "docs": [hx(d) for d in docs]},
                             compare=first in COLLIDERS))
     # a parser that is reconfigured after it has parsed: same result as a fresh parser given the same add/remove calls
-    RECONF = ["+s", "+3", "+4", "+8", "+x", "+S", "-m", "-M", "-a", "-x", "-l", "-E", "-3", "-b", "-s", "+1", "-H", "-p;+p", "+m", "-t", "-Z", "-Z", "+g", "+G", "-1", "-2"]
+    RECONF = ["+z", "+z", "+s", "+3", "+4", "+8", "+x", "+S", "-m", "-M", "-a", "-x", "-l", "-E", "-3", "-b", "-s", "+1", "-H", "-p;+p", "+m", "-t", "-Z", "-Z", "+g", "+G", "-1", "-2"]
     for _ in range(n):
         cfg = rng.choice(["C", "C3", "C34", "CW3", "C8", "nebp3", "CgG", "gCG3", "Cg", mdgen.gen_cfg(rng) + "3"])
         steps = ["+" + cfg]
